@@ -908,6 +908,12 @@ def _step(ctx, fa, e, S, state, viol, depth):
     if not kinds:
         return state, False, None
     fn = e.d["fn"]
+    if fn in _ab.POS_FNS and e.d.get("direct", S) == S:
+        # observing the position is a use of it: after a wrapped read it is wherever the wrapper's read-ahead stopped
+        bad = state != "K"
+        if bad and viol is not None:
+            viol.append((e, "observes the stream position while it is unspecified (a previous read went through a buffering/decoding wrapper, whose read-ahead depends on how the stream fragments reads)"))
+        return state, bad, "read"
     if "seek" in kinds and fn in absint_SEEK:
         tgt = unmut(e.d["args"][1]) if len(e.d["args"]) > 1 else None
         if is_call_to(tgt, lambda s: s == "std::io::SeekFrom::Start"):
